@@ -331,4 +331,433 @@ theorem celtStage_shift {o1 o2 : Oracle} {d : Int} (h : OracleShift o1 o2 d) (b 
   simp only [stepRedC2S_shift h, stepMainCelt_shift h, shiftRes, stepRedS2C_shift h, stepRedCopy_shift, stepTransFade_shift,
     stepGain_shift, stepFinish_shift, Body.shift_aud]
 
+/-! ### the frame body -/
+
+theorem bindRun_shift' {α β : Type} (d : Int) (x1 x2 : Out α × Run) (f1 f2 : α → Run → Out β × Run)
+    (hx : x2 = shiftRes d x1) (hf : ∀ a r, f2 a (shiftRun d r) = shiftRes d (f1 a r)) :
+    bindRun x2 f2 = shiftRes d (bindRun x1 f1) := by
+  rw [hx]; exact bindRun_shift d x1 f1 f2 hf
+
+/-- A recursive-call parameter (`trans`, `inner`) of the second run simulates that of the first. -/
+def TransShift (d : Int) (t1 t2 : Ptr → Int → Run → Res') : Prop :=
+  ∀ p n r, t2 p n (shiftRun d r) = shiftRes d (t1 p n r)
+
+theorem wantTransition_shift (st : DecState) (b : Body) (d : Int) : wantTransition st (b.shift d) = wantTransition st b := by
+  rcases b with ⟨data, len, pcm, fs, aud, mode, bw, fec⟩
+  cases data <;> rfl
+
+theorem transCall_shift {d : Int} {t1 t2 : Ptr → Int → Run → Res'} (ht : TransShift d t1 t2) (b : Body) (r : Run) :
+    transCall t2 (b.shift d) (shiftRun d r) = shiftRes d (transCall t1 b r) := by
+  unfold transCall
+  show bindRun (t2 (transBuf r.st) (min (F5 r.st) b.audiosize) (shiftRun d r)) (fun _ r' => (Out.ret (), r')) = _
+  exact bindRun_shift' d _ _ _ _ (ht _ _ _) (fun _ _ => rfl)
+
+/-- `frameBody` after the SILK stage. -/
+def fbTail (o : Oracle) (trans : Ptr → Int → Run → Res') (b : Body) (transition : Bool) (et : Int × Int) (r : Run) : Res' :=
+  if et.1 ≠ 0 then (.ret et.1, r)
+  else
+    bindRun (if (if (redStage o b et.2 r).1.redundancy ≠ 0 then false else transition) = true ∧ b.mode ≠ MODE_CELT
+        then transCall trans b (redStage o b et.2 r).2 else (.ret (), (redStage o b et.2 r).2)) fun _ r' =>
+      if ¬ endbandOk b.bandwidth then (.abort, r')
+      else celtStage o b (redStage o b et.2 r).1 (if (redStage o b et.2 r).1.redundancy ≠ 0 then false else transition) r'
+
+theorem frameBody_eq (o : Oracle) (trans : Ptr → Int → Run → Res') (b : Body) (r : Run) :
+    frameBody o trans b r =
+      bindRun (if wantTransition r.st b = true ∧ b.mode = MODE_CELT then transCall trans b r else (.ret (), r)) fun _ r1 =>
+        if b.audiosize > b.frame_size then (.ret BAD_ARG, r1)
+        else bindRun (if b.mode ≠ MODE_CELT then silkStage o b r1 else (.ret (0, 1), r1)) (fbTail o trans b (wantTransition r.st b)) := rfl
+
+theorem fbTail_shift {o1 o2 : Oracle} {d : Int} (h : OracleShift o1 o2 d) {t1 t2 : Ptr → Int → Run → Res'}
+    (ht : TransShift d t1 t2) (b : Body) (tr : Bool) (et : Int × Int) (r : Run) :
+    fbTail o2 t2 (b.shift d) tr et (shiftRun d r) = shiftRes d (fbTail o1 t1 b tr et r) := by
+  unfold fbTail
+  by_cases c0 : et.1 ≠ 0
+  · rw [if_pos c0, if_pos c0]; rfl
+  rw [if_neg c0, if_neg c0]
+  have hred := redStage_shift h b et.2 r
+  have h1 : (redStage o2 (b.shift d) et.2 (shiftRun d r)).1 = (redStage o1 b et.2 r).1 := by rw [hred]; rfl
+  have h2 : (redStage o2 (b.shift d) et.2 (shiftRun d r)).2 = shiftRun d (redStage o1 b et.2 r).2 := by rw [hred]; rfl
+  rw [h1, h2]
+  show bindRun (if (if (redStage o1 b et.2 r).1.redundancy ≠ 0 then false else tr) = true ∧ b.mode ≠ MODE_CELT
+      then transCall t2 (b.shift d) (shiftRun d (redStage o1 b et.2 r).2) else (.ret (), shiftRun d (redStage o1 b et.2 r).2))
+      (fun _ r' => if ¬ endbandOk b.bandwidth then (.abort, r')
+        else celtStage o2 (b.shift d) (redStage o1 b et.2 r).1 (if (redStage o1 b et.2 r).1.redundancy ≠ 0 then false else tr) r') = _
+  apply bindRun_shift'
+  · by_cases c1 : (if (redStage o1 b et.2 r).1.redundancy ≠ 0 then false else tr) = true ∧ b.mode ≠ MODE_CELT
+    · rw [if_pos c1, if_pos c1]; exact transCall_shift ht b _
+    · rw [if_neg c1, if_neg c1]; rfl
+  · intro _ r'
+    by_cases c2 : ¬ endbandOk b.bandwidth
+    · rw [if_pos c2, if_pos c2]; rfl
+    · rw [if_neg c2, if_neg c2]; exact celtStage_shift h b _ _ r'
+
+theorem frameBody_shift {o1 o2 : Oracle} {d : Int} (h : OracleShift o1 o2 d) {t1 t2 : Ptr → Int → Run → Res'}
+    (ht : TransShift d t1 t2) (b : Body) (r : Run) :
+    frameBody o2 t2 (b.shift d) (shiftRun d r) = shiftRes d (frameBody o1 t1 b r) := by
+  rw [frameBody_eq, frameBody_eq]
+  show bindRun (if wantTransition r.st (b.shift d) = true ∧ b.mode = MODE_CELT then transCall t2 (b.shift d) (shiftRun d r)
+      else (.ret (), shiftRun d r)) (fun _ r1 =>
+        if b.audiosize > b.frame_size then (.ret BAD_ARG, r1)
+        else bindRun (if b.mode ≠ MODE_CELT then silkStage o2 (b.shift d) r1 else (.ret (0, 1), r1))
+          (fbTail o2 t2 (b.shift d) (wantTransition r.st (b.shift d)))) = _
+  rw [wantTransition_shift]
+  apply bindRun_shift'
+  · by_cases c1 : wantTransition r.st b = true ∧ b.mode = MODE_CELT
+    · rw [if_pos c1, if_pos c1]; exact transCall_shift ht b r
+    · rw [if_neg c1, if_neg c1]; rfl
+  · intro _ r1
+    by_cases c2 : b.audiosize > b.frame_size
+    · rw [if_pos c2, if_pos c2]; rfl
+    · rw [if_neg c2, if_neg c2]
+      apply bindRun_shift'
+      · by_cases c3 : b.mode ≠ MODE_CELT
+        · rw [if_pos c3, if_pos c3]; exact silkStage_shift h b r1
+        · rw [if_neg c3, if_neg c3]; rfl
+      · intro et r2; exact fbTail_shift h ht b _ et r2
+
+/-! ### concealment layers -/
+
+theorem plcLoop_shift {d : Int} {i1 i2 : Ptr → Int → Run → Res'} (ht : TransShift d i1 i2) (f20 ch frame_size : Int) :
+    ∀ (n : Nat) (audiosize : Int) (pcm : Ptr) (r : Run), audiosize.toNat ≤ n →
+      plcLoop i2 f20 ch frame_size audiosize pcm (shiftRun d r) = shiftRes d (plcLoop i1 f20 ch frame_size audiosize pcm r) := by
+  intro n
+  induction n with
+  | zero =>
+    intro audiosize pcm r hn
+    rw [plcLoop]
+    conv => rhs; rw [plcLoop]
+    rw [ht]
+    rcases hx : i1 pcm (min audiosize f20) r with ⟨out, r1⟩
+    cases out with
+    | ret ret =>
+      simp only [shiftRes]
+      by_cases c1 : ret < 0
+      · simp only [if_pos c1]
+      · simp only [if_neg c1]
+        by_cases c2 : ret = 0
+        · simp only [dif_pos c2]
+        · simp only [dif_neg c2]
+          have : ¬ audiosize - ret > 0 := by omega
+          simp only [dif_neg this]
+    | abort => rfl
+    | hang => rfl
+  | succ n ih =>
+    intro audiosize pcm r hn
+    rw [plcLoop]
+    conv => rhs; rw [plcLoop]
+    rw [ht]
+    rcases hx : i1 pcm (min audiosize f20) r with ⟨out, r1⟩
+    cases out with
+    | ret ret =>
+      simp only [shiftRes]
+      by_cases c1 : ret < 0
+      · simp only [if_pos c1]
+      · simp only [if_neg c1]
+        by_cases c2 : ret = 0
+        · simp only [dif_pos c2]
+        · simp only [dif_neg c2]
+          by_cases c3 : audiosize - ret > 0
+          · simp only [dif_pos c3]
+            exact ih _ _ _ (by omega)
+          · simp only [dif_neg c3]
+    | abort => rfl
+    | hang => rfl
+
+theorem abortStub_shift (d : Int) : TransShift d (fun _ _ r => (Out.abort, r)) (fun _ _ r => (Out.abort, r)) :=
+  fun _ _ _ => rfl
+
+theorem nullAfterClamp_shift {o1 o2 : Oracle} {d : Int} (h : OracleShift o1 o2 d) {i1 i2 : Ptr → Int → Run → Res'}
+    (ht : TransShift d i1 i2) (len : Int) (pcm : Ptr) (frame_size : Int) (r : Run) :
+    nullAfterClamp o2 i2 len pcm frame_size (shiftRun d r) = shiftRes d (nullAfterClamp o1 i1 len pcm frame_size r) := by
+  unfold nullAfterClamp
+  show (if (if r.st.prev_redundancy ≠ 0 then MODE_CELT else r.st.prev_mode) = 0 then
+      (Out.ret frame_size, (shiftRun d r).push (.acc 12 pcm (frame_size * r.st.channels)))
+    else if frame_size > F20 r.st then plcLoop i2 (F20 r.st) r.st.channels frame_size frame_size pcm (shiftRun d r)
+    else frameBody o2 (fun _ _ r => (Out.abort, r))
+      { data := none, len := len, pcm := pcm, frame_size := frame_size,
+        audiosize := if frame_size < F20 r.st then
+            if frame_size > F10 r.st then F10 r.st
+            else if (if r.st.prev_redundancy ≠ 0 then MODE_CELT else r.st.prev_mode) ≠ MODE_SILK ∧ frame_size > F5 r.st ∧ frame_size < F10 r.st then F5 r.st
+            else frame_size
+          else frame_size,
+        mode := if r.st.prev_redundancy ≠ 0 then MODE_CELT else r.st.prev_mode, bandwidth := 0, fec := 0 } (shiftRun d r)) =
+    shiftRes d (if (if r.st.prev_redundancy ≠ 0 then MODE_CELT else r.st.prev_mode) = 0 then
+      (Out.ret frame_size, r.push (.acc 12 pcm (frame_size * r.st.channels)))
+    else if frame_size > F20 r.st then plcLoop i1 (F20 r.st) r.st.channels frame_size frame_size pcm r
+    else frameBody o1 (fun _ _ r => (Out.abort, r))
+      { data := none, len := len, pcm := pcm, frame_size := frame_size,
+        audiosize := if frame_size < F20 r.st then
+            if frame_size > F10 r.st then F10 r.st
+            else if (if r.st.prev_redundancy ≠ 0 then MODE_CELT else r.st.prev_mode) ≠ MODE_SILK ∧ frame_size > F5 r.st ∧ frame_size < F10 r.st then F5 r.st
+            else frame_size
+          else frame_size,
+        mode := if r.st.prev_redundancy ≠ 0 then MODE_CELT else r.st.prev_mode, bandwidth := 0, fec := 0 } r)
+  generalize (if r.st.prev_redundancy ≠ 0 then MODE_CELT else r.st.prev_mode) = mode
+  by_cases c0 : mode = 0
+  · rw [if_pos c0, if_pos c0]; simp only [shiftRes]; rw [shiftRun_push]; rfl
+  · rw [if_neg c0, if_neg c0]
+    by_cases c1 : frame_size > F20 r.st
+    · rw [if_pos c1, if_pos c1]; exact plcLoop_shift ht _ _ _ _ _ _ _ (Nat.le_refl _)
+    · rw [if_neg c1, if_neg c1]
+      exact frameBody_shift h (abortStub_shift d)
+        { data := none, len := len, pcm := pcm, frame_size := frame_size,
+          audiosize := if frame_size < F20 r.st then
+              if frame_size > F10 r.st then F10 r.st
+              else if mode ≠ MODE_SILK ∧ frame_size > F5 r.st ∧ frame_size < F10 r.st then F5 r.st else frame_size
+            else frame_size,
+          mode := mode, bandwidth := 0, fec := 0 } r
+
+theorem nullFrameGen_shift {o1 o2 : Oracle} {d : Int} (h : OracleShift o1 o2 d) {i1 i2 : Ptr → Int → Run → Res'}
+    (ht : TransShift d i1 i2) : TransShift d (nullFrameGen o1 i1) (nullFrameGen o2 i2) := by
+  intro pcm n r
+  unfold nullFrameGen
+  show (if n < F2_5 r.st then (Out.ret BUFFER_TOO_SMALL, shiftRun d r)
+    else nullAfterClamp o2 i2 0 pcm (min (min n (r.st.Fs / 25 * 3)) r.st.frame_size) (shiftRun d r)) =
+    shiftRes d (if n < F2_5 r.st then (Out.ret BUFFER_TOO_SMALL, r)
+    else nullAfterClamp o1 i1 0 pcm (min (min n (r.st.Fs / 25 * 3)) r.st.frame_size) r)
+  split
+  · rfl
+  · exact nullAfterClamp_shift h ht _ _ _ _
+
+theorem nullFrameLeaf_shift {o1 o2 : Oracle} {d : Int} (h : OracleShift o1 o2 d) :
+    TransShift d (nullFrameLeaf o1) (nullFrameLeaf o2) := nullFrameGen_shift h (abortStub_shift d)
+
+theorem nullFrame_shift {o1 o2 : Oracle} {d : Int} (h : OracleShift o1 o2 d) :
+    TransShift d (nullFrame o1) (nullFrame o2) := nullFrameGen_shift h (nullFrameLeaf_shift h)
+
+/-- `opus_decode_frame` on the same frame at a shifted packet offset. -/
+theorem decodeFrame_shift {o1 o2 : Oracle} {d : Int} (h : OracleShift o1 o2 d) (data : Option Int) (len : Int) (pcm : Ptr)
+    (frame_size fec : Int) (r : Run) :
+    decodeFrame o2 (shiftData d data) len pcm frame_size fec (shiftRun d r) =
+      shiftRes d (decodeFrame o1 data len pcm frame_size fec r) := by
+  unfold decodeFrame
+  show (if frame_size < F2_5 r.st then (Out.ret BUFFER_TOO_SMALL, shiftRun d r)
+    else if len ≤ 1 ∨ (shiftData d data).isNone = true then
+      nullAfterClamp o2 (nullFrameLeaf o2) len pcm (min (min frame_size (r.st.Fs / 25 * 3)) r.st.frame_size) (shiftRun d r)
+    else frameBody o2 (nullFrame o2)
+      { data := shiftData d data, len := len, pcm := pcm, frame_size := min frame_size (r.st.Fs / 25 * 3),
+        audiosize := r.st.frame_size, mode := r.st.mode, bandwidth := r.st.bandwidth, fec := fec }
+      ((shiftRun d r).push (.decInit ((shiftData d data).getD 0) len))) =
+    shiftRes d (if frame_size < F2_5 r.st then (Out.ret BUFFER_TOO_SMALL, r)
+    else if len ≤ 1 ∨ data.isNone = true then
+      nullAfterClamp o1 (nullFrameLeaf o1) len pcm (min (min frame_size (r.st.Fs / 25 * 3)) r.st.frame_size) r
+    else frameBody o1 (nullFrame o1)
+      { data := data, len := len, pcm := pcm, frame_size := min frame_size (r.st.Fs / 25 * 3),
+        audiosize := r.st.frame_size, mode := r.st.mode, bandwidth := r.st.bandwidth, fec := fec }
+      (r.push (.decInit (data.getD 0) len)))
+  split
+  · rfl
+  · rw [shiftData_isNone]
+    split
+    · exact nullAfterClamp_shift h (nullFrameLeaf_shift h) _ _ _ _
+    · rename_i hc
+      have hsome : ∃ x, data = some x := by
+        cases data with
+        | none => exact absurd (Or.inr rfl) hc
+        | some x => exact ⟨x, rfl⟩
+      obtain ⟨x, rfl⟩ := hsome
+      have hpush : (shiftRun d r).push (.decInit ((shiftData d (some x)).getD 0) len) = shiftRun d (r.push (.decInit ((some x).getD 0) len)) := by
+        rw [shiftRun_push]; rfl
+      rw [hpush]
+      exact frameBody_shift h (nullFrame_shift h)
+        { data := some x, len := len, pcm := pcm, frame_size := min frame_size (r.st.Fs / 25 * 3),
+          audiosize := r.st.frame_size, mode := r.st.mode, bandwidth := r.st.bandwidth, fec := fec } _
+
+/-! ### opus_decode_native -/
+
+theorem frameLoop_shift {o1 o2 : Oracle} {d : Int} (h : OracleShift o1 o2 d) (pcm : Ptr) (frame_size pfs : Int) :
+    ∀ (sizes : List Nat) (off nb : Int) (r : Run),
+      frameLoop o2 pcm frame_size pfs sizes (off + d) nb (shiftRun d r) = shiftRes d (frameLoop o1 pcm frame_size pfs sizes off nb r) := by
+  intro sizes
+  induction sizes with
+  | nil => intro off nb r; rfl
+  | cons sz rest ih =>
+    intro off nb r
+    rw [frameLoop, frameLoop]
+    have hdf := decodeFrame_shift h (some off) sz (pcm.add (nb * r.st.channels)) (frame_size - nb) 0 r
+    show (match decodeFrame o2 (shiftData d (some off)) sz (pcm.add (nb * r.st.channels)) (frame_size - nb) 0 (shiftRun d r) with
+      | (.ret ret, r1) => if ret < 0 then (Out.ret ret, r1) else if ret ≠ pfs then (Out.abort, r1)
+          else frameLoop o2 pcm frame_size pfs rest (off + d + sz) (nb + ret) r1
+      | x => x) = _
+    rw [hdf]
+    rcases hx : decodeFrame o1 (some off) sz (pcm.add (nb * r.st.channels)) (frame_size - nb) 0 r with ⟨out, r1⟩
+    cases out with
+    | ret ret =>
+      simp only [shiftRes]
+      by_cases c1 : ret < 0
+      · simp only [if_pos c1]
+      · simp only [if_neg c1]
+        by_cases c2 : ret ≠ pfs
+        · simp only [if_pos c2]
+        · simp only [if_neg c2]
+          have : off + d + sz = off + sz + d := by omega
+          rw [this]
+          exact ih _ _ _
+    | abort => rfl
+    | hang => rfl
+
+theorem nativePlcLoop_shift {o1 o2 : Oracle} {d : Int} (h : OracleShift o1 o2 d) (frame_size : Int) (pcm : Ptr) :
+    ∀ (n : Nat) (pcm_count : Int) (r : Run), (frame_size - pcm_count).toNat ≤ n →
+      nativePlcLoop o2 frame_size pcm pcm_count (shiftRun d r) = shiftRes d (nativePlcLoop o1 frame_size pcm pcm_count r) := by
+  intro n
+  induction n with
+  | zero =>
+    intro pcm_count r hn
+    rw [nativePlcLoop]
+    conv => rhs; rw [nativePlcLoop]
+    have hdf := decodeFrame_shift h none 0 (pcm.add (pcm_count * r.st.channels)) (frame_size - pcm_count) 0 r
+    show (match decodeFrame o2 (shiftData d none) 0 (pcm.add (pcm_count * r.st.channels)) (frame_size - pcm_count) 0 (shiftRun d r) with
+      | (.ret ret, r1) => if ret < 0 then (Out.ret ret, r1) else if _h : ret = 0 then (Out.hang, r1)
+          else if _h2 : pcm_count + ret < frame_size then nativePlcLoop o2 frame_size pcm (pcm_count + ret) r1
+          else if pcm_count + ret ≠ frame_size then (Out.abort, r1)
+          else (Out.ret (pcm_count + ret), r1.setSt { r1.st with last_packet_duration := pcm_count + ret })
+      | x => x) = _
+    rw [hdf]
+    rcases hx : decodeFrame o1 none 0 (pcm.add (pcm_count * r.st.channels)) (frame_size - pcm_count) 0 r with ⟨out, r1⟩
+    cases out with
+    | ret ret =>
+      simp only [shiftRes]
+      by_cases c1 : ret < 0
+      · simp only [if_pos c1]
+      · simp only [if_neg c1]
+        by_cases c2 : ret = 0
+        · simp only [dif_pos c2]
+        · simp only [dif_neg c2]
+          have c3 : ¬ pcm_count + ret < frame_size := by omega
+          simp only [dif_neg c3]
+          by_cases c4 : pcm_count + ret ≠ frame_size
+          · simp only [if_pos c4]
+          · simp only [if_neg c4]; rfl
+    | abort => rfl
+    | hang => rfl
+  | succ n ih =>
+    intro pcm_count r hn
+    rw [nativePlcLoop]
+    conv => rhs; rw [nativePlcLoop]
+    have hdf := decodeFrame_shift h none 0 (pcm.add (pcm_count * r.st.channels)) (frame_size - pcm_count) 0 r
+    show (match decodeFrame o2 (shiftData d none) 0 (pcm.add (pcm_count * r.st.channels)) (frame_size - pcm_count) 0 (shiftRun d r) with
+      | (.ret ret, r1) => if ret < 0 then (Out.ret ret, r1) else if _h : ret = 0 then (Out.hang, r1)
+          else if _h2 : pcm_count + ret < frame_size then nativePlcLoop o2 frame_size pcm (pcm_count + ret) r1
+          else if pcm_count + ret ≠ frame_size then (Out.abort, r1)
+          else (Out.ret (pcm_count + ret), r1.setSt { r1.st with last_packet_duration := pcm_count + ret })
+      | x => x) = _
+    rw [hdf]
+    rcases hx : decodeFrame o1 none 0 (pcm.add (pcm_count * r.st.channels)) (frame_size - pcm_count) 0 r with ⟨out, r1⟩
+    cases out with
+    | ret ret =>
+      simp only [shiftRes]
+      by_cases c1 : ret < 0
+      · simp only [if_pos c1]
+      · simp only [if_neg c1]
+        by_cases c2 : ret = 0
+        · simp only [dif_pos c2]
+        · simp only [dif_neg c2]
+          by_cases c3 : pcm_count + ret < frame_size
+          · simp only [dif_pos c3]
+            exact ih _ _ (by omega)
+          · simp only [dif_neg c3]
+            by_cases c4 : pcm_count + ret ≠ frame_size
+            · simp only [if_pos c4]
+            · simp only [if_neg c4]; rfl
+    | abort => rfl
+    | hang => rfl
+
+theorem nativePlc_shift {o1 o2 : Oracle} {d : Int} (h : OracleShift o1 o2 d) (pcm : Ptr) (frame_size : Int) (r : Run) :
+    nativePlc o2 pcm frame_size (shiftRun d r) = shiftRes d (nativePlc o1 pcm frame_size r) := by
+  unfold nativePlc
+  show (if ¬ validateOk r.st = true then (Out.abort, shiftRun d r)
+    else if cmod frame_size (r.st.Fs / 400) ≠ 0 then (Out.ret BAD_ARG, shiftRun d r)
+    else nativePlcLoop o2 frame_size pcm 0 (shiftRun d r)) =
+    shiftRes d (if ¬ validateOk r.st = true then (Out.abort, r)
+    else if cmod frame_size (r.st.Fs / 400) ≠ 0 then (Out.ret BAD_ARG, r)
+    else nativePlcLoop o1 frame_size pcm 0 r)
+  split
+  · rfl
+  · split
+    · rfl
+    · exact nativePlcLoop_shift h _ _ _ _ _ (Nat.le_refl _)
+
+theorem fecGap_shift {o1 o2 : Oracle} {d : Int} (h : OracleShift o1 o2 d) (pcm : Ptr) (gap : Int) (r : Run) :
+    fecGap o2 pcm gap (shiftRun d r) = shiftRes d (fecGap o1 pcm gap r) := by
+  unfold fecGap
+  by_cases c0 : gap ≠ 0
+  · rw [if_pos c0, if_pos c0, nativePlc_shift h]
+    rcases hx : nativePlc o1 pcm gap r with ⟨out, r1⟩
+    cases out with
+    | ret ret =>
+      simp only [shiftRes, shiftRun_st]
+      by_cases c1 : ret < 0
+      · simp only [if_pos c1]; rfl
+      · simp only [if_neg c1]
+        by_cases c2 : ret ≠ gap
+        · simp only [if_pos c2]
+        · simp only [if_neg c2]
+    | abort => rfl
+    | hang => rfl
+  · rw [if_neg c0, if_neg c0]; rfl
+
+theorem nativeFec_shift {o1 o2 : Oracle} {d : Int} (h : OracleShift o1 o2 d) (pcm : Ptr)
+    (frame_size pfs pm pb pc off0 sz0 : Int) (r : Run) :
+    nativeFec o2 pcm frame_size pfs pm pb pc (off0 + d) sz0 (shiftRun d r) =
+      shiftRes d (nativeFec o1 pcm frame_size pfs pm pb pc off0 sz0 r) := by
+  unfold nativeFec
+  show (if frame_size < pfs ∨ pm = MODE_CELT ∨ r.st.mode = MODE_CELT then nativePlc o2 pcm frame_size (shiftRun d r)
+    else match fecGap o2 pcm (frame_size - pfs) (shiftRun d r) with
+      | (.ret v, r1) => if v < 0 then (Out.ret v, r1)
+        else match decodeFrame o2 (shiftData d (some off0)) sz0 (pcm.add (r.st.channels * (frame_size - pfs))) pfs 1
+              (r1.setSt (setToc r1.st pm pb pfs pc)) with
+          | (.ret ret, r3) => if ret < 0 then (Out.ret ret, r3)
+            else (Out.ret frame_size, r3.setSt { r3.st with last_packet_duration := frame_size })
+          | x => x
+      | x => x) = _
+  by_cases c0 : frame_size < pfs ∨ pm = MODE_CELT ∨ r.st.mode = MODE_CELT
+  · rw [if_pos c0, if_pos c0]; exact nativePlc_shift h _ _ _
+  · rw [if_neg c0, if_neg c0, fecGap_shift h]
+    rcases hx : fecGap o1 pcm (frame_size - pfs) r with ⟨out, r1⟩
+    cases out with
+    | ret v =>
+      simp only [shiftRes]
+      by_cases c1 : v < 0
+      · simp only [if_pos c1]
+      · simp only [if_neg c1]
+        have hdf := decodeFrame_shift h (some off0) sz0 (pcm.add (r.st.channels * (frame_size - pfs))) pfs 1
+          (r1.setSt (setToc r1.st pm pb pfs pc))
+        rw [shiftRun_setSt] at hdf
+        simp only [shiftRun_st]
+        rw [hdf]
+        rcases hy : decodeFrame o1 (some off0) sz0 (pcm.add (r.st.channels * (frame_size - pfs))) pfs 1
+          (r1.setSt (setToc r1.st pm pb pfs pc)) with ⟨out2, r3⟩
+        cases out2 with
+        | ret ret =>
+          simp only [shiftRes]
+          by_cases c2 : ret < 0
+          · simp only [if_pos c2]
+          · simp only [if_neg c2]; rfl
+        | abort => rfl
+        | hang => rfl
+    | abort => rfl
+    | hang => rfl
+
+theorem nativeFrames_shift {o1 o2 : Oracle} {d : Int} (h : OracleShift o1 o2 d) (pcm : Ptr)
+    (frame_size pfs pm pb pc : Int) (sizes : List Nat) (off0 : Int) (sc : Bool) (r : Run) :
+    nativeFrames o2 pcm frame_size pfs pm pb pc sizes (off0 + d) sc (shiftRun d r) =
+      shiftRes d (nativeFrames o1 pcm frame_size pfs pm pb pc sizes off0 sc r) := by
+  unfold nativeFrames
+  have hfl := frameLoop_shift h pcm frame_size pfs sizes off0 0 (r.setSt (setToc r.st pm pb pfs pc))
+  rw [shiftRun_setSt] at hfl
+  simp only [shiftRun_st]
+  rw [hfl]
+  rcases hx : frameLoop o1 pcm frame_size pfs sizes off0 0 (r.setSt (setToc r.st pm pb pfs pc)) with ⟨out, r2⟩
+  cases out with
+  | ret nb =>
+    simp only [shiftRes]
+    by_cases c1 : nb < 0
+    · simp only [if_pos c1]
+    · simp only [if_neg c1]
+      cases sc with
+      | true => simp only [↓reduceIte]; rw [shiftRun_push]; rfl
+      | false => simp only [Bool.false_eq_true, ↓reduceIte]; rfl
+  | abort => rfl
+  | hang => rfl
+
 end Opus.DecSkel
